@@ -22,7 +22,10 @@
 (* ResultIsDebyeSum (at termination omega is the sum over exactly the      *)
 (* intramolecular pairs, each once, whatever NC, NT and the interleaving); *)
 (* RowsArePrivate (no row is written by two threads); OrderIndependent     *)
-(* (relabelling the sites permutes nothing in the result).                 *)
+(* (relabelling the sites permutes nothing in the result); CallReturns-    *)
+(* Average (every calculate() call on the object returns the frame average *)
+(* of the Debye sum: per-frame reset of the rows, fresh accumulators per   *)
+(* call).                                                                  *)
 (***************************************************************************)
 EXTENDS Integers, FiniteSets, Sequences, TLC
 
@@ -31,7 +34,9 @@ CONSTANTS N1, N2,       \* numbers of sites of the two types (self: N2 = N1)
           NT,           \* OpenMP threads actually running
           SelfOmega,    \* BOOLEAN
           Mol1, Mol2,   \* molecule label of each site: sequences of length N1, N2
-          Deviation     \* "none" | "shared_row"
+          Frames,       \* frames of the trajectory (all frames of the model hold the same positions)
+          Calls,        \* successive calculate() calls on ONE Debyer object
+          Deviation     \* "none" | "shared_row" | "no_frame_reset" | "stale_accumulator"
 
 Sites1 == 0 .. N1 - 1
 Sites2 == 0 .. N2 - 1
@@ -89,9 +94,13 @@ VARIABLES row,        \* thread_omega: task -> accumulated weight
           pos,        \* thread -> index into Work(task) of the next pair
           reg,        \* thread -> loaded value of the row entry, or -1 when not between load and store
           writers,    \* task (row) -> set of threads that stored into it
-          omega,      \* the reduced result, -1 before the reduction
+          omega,      \* the reduced result of the current frame, -1 before the reduction
+          frame,      \* current frame 1 .. Frames
+          call,       \* current call 1 .. Calls
+          acc,        \* accumulator over the frames of the current call
+          result,     \* what the current call returned (times Frames: the code divides by the frame count), -1 = running
           last
-vars == <<row, task, pos, reg, writers, omega, last>>
+vars == <<row, task, pos, reg, writers, omega, frame, call, acc, result, last>>
 
 RowOf(th) == IF Deviation = "shared_row" THEN 0 ELSE task[th]
 
@@ -101,6 +110,7 @@ Init == /\ row = [t \in Tasks |-> 0]
         /\ reg = [th \in Threads |-> -1]
         /\ writers = [t \in Tasks |-> {}]
         /\ omega = -1
+        /\ frame = 1 /\ call = 1 /\ acc = 0 /\ result = -1
         /\ last = [act |-> "Init"]
 
 Active(th) == task[th] < NC
@@ -115,14 +125,14 @@ Advance(th) ==
               /\ pos' = [pos EXCEPT ![th] = pos[th] + 1]
               /\ UNCHANGED task
     /\ last' = [act |-> "Advance", th |-> th]
-    /\ UNCHANGED <<row, reg, writers, omega>>
+    /\ UNCHANGED <<row, reg, writers, omega, frame, call, acc, result>>
 Load(th) ==
     /\ Active(th) /\ reg[th] = -1 /\ omega = -1
     /\ LET w == Work(task[th])
        IN  /\ pos[th] <= Len(w) /\ Counted(w[pos[th]][1], w[pos[th]][2])
            /\ reg' = [reg EXCEPT ![th] = row[RowOf(th)]]
     /\ last' = [act |-> "Load", th |-> th]
-    /\ UNCHANGED <<row, task, pos, writers, omega>>
+    /\ UNCHANGED <<row, task, pos, writers, omega, frame, call, acc, result>>
 Store(th) ==
     /\ Active(th) /\ reg[th] # -1
     /\ LET w == Work(task[th])
@@ -132,7 +142,7 @@ Store(th) ==
     /\ reg' = [reg EXCEPT ![th] = -1]
     /\ pos' = [pos EXCEPT ![th] = pos[th] + 1]
     /\ last' = [act |-> "Store", th |-> th]
-    /\ UNCHANGED <<task, omega>>
+    /\ UNCHANGED <<task, omega, frame, call, acc, result>>
 \* after the implicit barrier of the parallel loop: sequential reduction over the rows
 RECURSIVE SumRows(_)
 SumRows(t) == IF t < 0 THEN 0 ELSE row[t] + SumRows(t - 1)
@@ -140,16 +150,42 @@ Reduce ==
     /\ omega = -1 /\ \A th \in Threads : ~Active(th)
     /\ omega' = SumRows(NC - 1)
     /\ last' = [act |-> "Reduce"]
-    /\ UNCHANGED <<row, task, pos, reg, writers>>
-Next == (\E th \in Threads : Advance(th) \/ Load(th) \/ Store(th)) \/ Reduce
+    /\ UNCHANGED <<row, task, pos, reg, writers, frame, call, acc, result>>
+\* calculate(): for every frame reset the rows, run the parallel loop, add the frame's omega to the accumulator
+FirstTask(th) == IF TasksOf(th) = {} THEN NC ELSE CHOOSE u \in TasksOf(th) : \A v \in TasksOf(th) : u <= v
+FrameDone ==
+    /\ omega # -1 /\ result = -1
+    /\ acc' = acc + omega
+    /\ IF frame < Frames
+       THEN /\ frame' = frame + 1 /\ omega' = -1
+            /\ row' = IF Deviation = "no_frame_reset" THEN row ELSE [t \in Tasks |-> 0]     \* thread_omega[:,:] = Base2D
+            /\ task' = [th \in Threads |-> FirstTask(th)] /\ pos' = [th \in Threads |-> 1]
+            /\ UNCHANGED result
+       ELSE /\ result' = acc'                       \* returned: acc / Frames
+            /\ UNCHANGED <<frame, omega, row, task, pos>>
+    /\ last' = [act |-> "FrameDone"]
+    /\ UNCHANGED <<reg, writers, call>>
+\* the next calculate() on the same object starts from fresh accumulators
+NextCall ==
+    /\ result # -1 /\ call < Calls
+    /\ call' = call + 1 /\ frame' = 1 /\ result' = -1 /\ omega' = -1
+    /\ acc' = IF Deviation = "stale_accumulator" THEN acc ELSE 0
+    /\ row' = [t \in Tasks |-> 0]
+    /\ task' = [th \in Threads |-> FirstTask(th)] /\ pos' = [th \in Threads |-> 1]
+    /\ writers' = [t \in Tasks |-> {}]
+    /\ last' = [act |-> "NextCall"]
+    /\ UNCHANGED reg
+Next == (\E th \in Threads : Advance(th) \/ Load(th) \/ Store(th)) \/ Reduce \/ FrameDone \/ NextCall
 
 \* ---------------------------------------------------------------- statements
 ResultIsDebyeSum == omega # -1 => omega = DebyeSum
+\* every call returns the frame average of the Debye sum, whatever was computed on the object before
+CallReturnsAverage == result # -1 => result = Frames * DebyeSum
 RowsArePrivate   == \A t \in Tasks : Cardinality(writers[t]) <= 1
 \* the barrier: nothing is reduced while a thread is still working
 ReduceAfterBarrier == omega # -1 => \A th \in Threads : ~Active(th)
 \* the loop always terminates with a result (no thread waits for another one before the barrier): under weak fairness
 \* of the scheduler the reduction is eventually performed
 FairSpec == Init /\ [][Next]_vars /\ WF_vars(Next)
-Terminates == <>(omega # -1)
+Terminates == <>(result # -1 /\ call = Calls)
 =============================================================================
